@@ -155,15 +155,15 @@ func (w *world) checkKey(c *gcase, k key.Key, idc string, role string) *protoser
 		return nil
 	}
 	if err != nil {
-		if c.noser != "" {
-			o.Count("unserializable-by-design/" + c.typ + "/" + role)
+		// the constructors accepted this key but it cannot be serialized
+		if c.docUnserKey != "" {
+			o.Count("unserializable/" + c.typ + "/" + c.docUnserKey)
 			return nil
 		}
-		w.violate("SerializeKey-fails/"+c.typ, "%s: %v", ctx, err)
+		reason := reasonClass(err)
+		o.Count("unserializable/" + c.typ + "/" + reason)
+		w.violate("UNSERIALIZABLE "+c.typ+" ("+reason+")", "the constructors accept this key but SerializeKey fails: %s: %v", ctx, err)
 		return nil
-	}
-	if c.noser != "" {
-		w.violate("expected-unserializable-but-serialized/"+c.typ, "%s", ctx)
 	}
 	kd := s1.KeyData()
 	tname := typeOfURL(kd.GetTypeUrl())
@@ -232,7 +232,7 @@ func (w *world) checkKey(c *gcase, k key.Key, idc string, role string) *protoser
 	} else {
 		o.Count("roundtrip-equal/" + tname)
 		if c.lossy != "" {
-			w.violate("expected-lossy-but-equal/"+tname, "%s", ctx)
+			o.Count("lossy-class-round-trips-now/" + tname)
 		}
 	}
 	if !k2.Parameters().Equal(k.Parameters()) && c.lossy == "" {
@@ -320,11 +320,13 @@ func (w *world) checkParams(c *gcase) {
 		return
 	}
 	if err != nil {
-		if c.noser != "" {
-			o.Count("params-unserializable-by-design/" + c.typ)
+		if c.docUnserParams != "" {
+			o.Count("unserializable/" + c.typ + " parameters/" + c.docUnserParams)
 			return
 		}
-		w.violate("SerializeParameters-fails/"+c.typ, "%s: %v", ctx, err)
+		reason := reasonClass(err)
+		o.Count("unserializable/" + c.typ + " parameters/" + reason)
+		w.violate("UNSERIALIZABLE "+c.typ+" parameters ("+reason+")", "NewParameters accepts these parameters but SerializeParameters fails: %s: %v", ctx, err)
 		return
 	}
 	tname := typeOfURL(t1.GetTypeUrl())
@@ -383,7 +385,7 @@ func (w *world) checkParams(c *gcase) {
 	} else {
 		o.Count("params-roundtrip-equal/" + tname)
 		if c.paramsLossy != "" {
-			w.violate("params-expected-lossy-but-equal/"+tname, "%s", ctx)
+			o.Count("params-lossy-class-round-trips-now/" + tname)
 		}
 	}
 	var t2 *tinkpb.KeyTemplate
@@ -400,6 +402,26 @@ func (w *world) checkParams(c *gcase) {
 	if err == nil {
 		w.emitWire(ctx+" (KeyTemplate)", t1.ProtoReflect(), tb, false)
 	}
+}
+
+// reasonClass turns an error text into a short class name (digits and quotes removed).
+func reasonClass(err error) string {
+	var b strings.Builder
+	for _, r := range err.Error() {
+		switch {
+		case r >= '0' && r <= '9':
+			if !strings.HasSuffix(b.String(), "N") {
+				b.WriteByte('N')
+			}
+		case r == '"' || r == '/':
+		default:
+			b.WriteRune(r)
+		}
+		if b.Len() >= 70 {
+			break
+		}
+	}
+	return b.String()
 }
 
 func shortLabel(s string) string {
